@@ -30,6 +30,18 @@ int main(int argc, char** argv) {
       } catch (const EigenAssert& e) { printf("seed %d tall %d maxit %d: Eigen assertion in matrix_U/V after a second compute(): %s\n", seed, tall, maxit, e.what()); bad |= 1; }
     }
   }
+  // partial convergence: whatever nconv is, column i of U / V must belong to singular value i (A V = U S, V'V = I)
+  if (mode & 1) for (int seed = 0; seed < 120 && !(bad & 4); seed++) {
+    std::srand(seed + 101); const int m = 30 + seed % 25, n = 20 + (seed * 7) % 30; Eigen::MatrixXd A = Eigen::MatrixXd::Random(m, n);
+    for (int maxit = 1; maxit <= 40 && !(bad & 4); maxit += 1 + maxit / 6) {
+      try { PartialSVDSolver<Eigen::MatrixXd> svds(A, 6, 12); Eigen::Index nc = svds.compute(maxit, 1e-10); if (nc == 0 || nc == 6) continue;
+        Eigen::MatrixXd U = svds.matrix_U(6), V = svds.matrix_V(6); Eigen::VectorXd sv = svds.singular_values();
+        if (U.cols() != nc || V.cols() != nc || sv.size() != nc) { printf("partial run (nconv=%ld): %ld / %ld / %ld columns / values\n", (long)nc, (long)U.cols(), (long)V.cols(), (long)sv.size()); bad |= 4; break; }
+        double r = (A * V - U * sv.asDiagonal()).norm(), o = (V.transpose() * V - Eigen::MatrixXd::Identity(nc, nc)).norm();
+        if (r > 1e-6 * A.norm() || o > 1e-6) { printf("seed %d %dx%d maxit %d nconv=%ld: ||A V - U S|| = %g, ||V'V - I|| = %g: returned vectors do not belong to the returned singular values\n", seed, m, n, maxit, (long)nc, r, o); bad |= 4; }
+      } catch (const EigenAssert& e) { printf("partial run: Eigen assertion %s\n", e.what()); bad |= 4; } catch (const std::exception&) {}
+    }
+  }
   if (mode & 2) {
     Eigen::MatrixXd A = Eigen::MatrixXd::Random(10, 6);
     long before = g_live; int threw = 0;
